@@ -412,7 +412,7 @@ class ConsumerMdib(mdibbase.MdibBase):
                         )
                         old_state_container.update_from_other_container(state_container)
                         src.update_object(old_state_container)
-                        states_by_handle[old_state_container.DescriptorHandle] = old_state_container
+                        states_by_handle[old_state_container.Handle] = old_state_container
                 else:
                     self._logger.info(  # noqa: PLE1205
                         'new context state: handle = {} Descriptor Handle={} Assoc={}, Validators={}',
